@@ -511,24 +511,6 @@ Proof.
   induction h as [|y h IH]; intros x [|n] v Hn; cbn in *; try lia; auto. f_equal. apply IH. lia.
 Qed.
 
-(* VisitAssignStmt frees the old buffer BEFORE it claims/copies the new one; as long as the source
-   is not the freed buffer the two steps commute *)
-Lemma store_commute : forall st lold st1 l tmp l' st2,
-  free lold st = Ok st1 -> claim_or_copy l tmp st1 = Ok (l', st2) -> l <> lold -> live st l -> live st lold ->
-  exists st2', claim_or_copy l tmp st = Ok (l', st2') /\ free lold st2' = Ok st2.
-Proof.
-  intros st lold st1 l tmp l' st2 Hf Hc Hne [c El] [c0 E]. unfold free in Hf. rewrite E in Hf. inv Hf.
-  unfold claim_or_copy in *. destruct tmp.
-  - inv Hc. eexists. split; [reflexivity|]. unfold free. cbn. rewrite E. reflexivity.
-  - unfold copy_of in *.
-    assert (R1 : read l (set_heap st (upd (heap st) lold Freed)) = Ok c).
-    { apply read_live. cbn. rewrite nth_error_upd_neq by auto. auto. }
-    rewrite R1 in Hc. rewrite (read_live _ _ _ El). cbn in Hc. inv Hc.
-    cbn. exists (set_heap st (heap st ++ [Live c])). unfold alloc. cbn. rewrite upd_length. split; [reflexivity|]. unfold free. cbn.
-    rewrite nth_error_app_old by (eapply nth_error_lt; eauto). rewrite E.
-    unfold set_heap. cbn. rewrite upd_app_l by (eapply nth_error_lt; eauto). reflexivity.
-Qed.
-
 Lemma store_value_spec : forall X st a v st',
   Sep X st -> rv_ok st v -> store_value a v st = Ok st' ->
   Sep X st' /\ length (vars st') = length (vars st) /\ out st' = out st /\
@@ -539,15 +521,7 @@ Proof.
   destruct a0 as [z0|lold|]; destruct v as [z|l tmp]; try discriminate Hk.
   - inv Hk. split; [eapply Sep_set_int; eauto|]. cbn. rewrite upd_length.
     split; [auto|split; [auto|split; [auto|]]]. intros b Hne. apply set_slot_keeps; auto.
-  - destruct (negb tmp && Nat.eqb l lold) eqn:Eself; [discriminate Hk|].
-    bind_inv Hk. bind_inv Hk0. destruct a1 as [l' st2]. inv Hk.
-    assert (Hne : l <> lold).
-    { destruct tmp; cbn in Eself, Hr.
-      - intros ->. eapply (sep_xvar _ _ HS); eauto. apply in_or_app; auto.
-      - apply Nat.eqb_neq; auto. }
-    assert (Hll : live st l) by (eapply rv_read_live; eauto).
-    assert (Hlo : live st lold) by (eapply (sep_live _ _ HS); eauto).
-    destruct (store_commute _ _ _ _ _ _ _ Hb0 Hb1 Hne Hll Hlo) as (st2' & C1 & C2).
+  - bind_as Hk r C1 Hk. destruct r as [l' st2']. bind_as Hk st2 C2 Hk. inv Hk.
     destruct (claim_or_copy_spec _ _ _ _ _ _ HS Hr C1) as (A1 & A2 & A3 & A4 & A5 & A6).
     assert (Hp : ptr_at st2' a lold) by (unfold ptr_at; congruence).
     split; [eapply Sep_replace; eauto|].
@@ -842,7 +816,6 @@ Proof.
     intros b Hb'. eapply keeps_trans; [apply K5; auto | apply A5; lia].
 Qed.
 
-Ltac bind_as H a H1 H2 := apply bind_ok in H; destruct H as (a & H1 & H2).
 
 Lemma do_call_copy_spec : forall mt funs genv ex e dst f args X st st',
   ex_ok genv ex ->
